@@ -1,7 +1,7 @@
 /-
   oracle_c18 — line-protocol driver for the C18 model (Model/NetParse.lean).
   Requests (byte strings hex, "-" = empty):
-    h <fixed:0|1> <cmd> <ntx|-1> <authgot:0|1> <authorized:0|1> <trusted:0|1> <payload>
+    h <fixed:0|1> <cmd> <ntx|-1> <authgot:0|1> <authorized:0|1> <trusted:0|1> <pending getdata bytes|-1> <getmp ticket ours:0|1> <payload>
         -> <out> L=<locks> S=<steps>
     f <fixed:0|1> <haskey:0|1> <versionreceived:0|1> <magic> <wire>
         -> <out> L=<locks> S=<steps>
@@ -42,12 +42,16 @@ def bit? (s : String) : Option Bool :=
 def step (_ : Unit) (toks : List String) : Unit × String :=
   let bad := ((), "bad-op")
   match toks with
-  | ["h", fx, cmd, ntx, ag, au, tr, pl] =>
-    match Hex.decode pl, ntx.toInt?, bit? fx, bit? ag, bit? au, bit? tr with
-    | some pl, some ntx, some fixed, some ag, some au, some tr =>
+  | ["h", fx, cmd, ntx, ag, au, tr, pend, ours, pl] =>
+    -- pend: bytes of postponed getdata requests on the connection (c.unfinished_getdata), -1 = none
+    -- ours: a getmp request is pending and the global getmp ticket is this connection's
+    match Hex.decode pl, ntx.toInt?, bit? fx, bit? ag, bit? au, bit? tr, pend.toInt?, bit? ours with
+    | some pl, some ntx, some fixed, some ag, some au, some tr, some pend, some ours =>
       let E : Env := { txSize := Wire.txSize, newTx := newTxI,
                        ntx := if ntx < 0 then none else some ntx.toNat,
-                       authGot := ag, authorized := au, pendingGetData := none, trusted := tr }
+                       authGot := ag, authorized := au,
+                       pendingGetData := if pend < 0 then none else some pend.toNat, trusted := tr,
+                       getmpOurs := ours }
       let r :=
         if fixed then parse E cmd pl
         else if cmd = "version" then handleVersionG false pl
@@ -56,7 +60,7 @@ def step (_ : Unit) (toks : List String) : Unit × String :=
         else if cmd = "cmpctblock" then processCmpctBlockG false E.txSize pl
         else parse E cmd pl
       ((), showRes r)
-    | _, _, _, _, _, _ => bad
+    | _, _, _, _, _, _, _, _ => bad
   | ["f", fx, hk, vr, magic, w] =>
     match Hex.decode magic, Hex.decode w with
     | some magic, some w =>
